@@ -179,6 +179,28 @@ impl AltRule {
     /// Is the rule inside the class C05 quantifies over?  Every rule transition lies more than
     /// one day inside its calendar year (as an instant and on both wall clocks), and every
     /// season lasts at least `min_season` seconds, in every year of the 400-year cycle.
+    /// Only the second half of `in_class`: every season lasts at least `min_season` seconds in
+    /// every year of the cycle (so the order of the transitions never flips), wherever in the
+    /// year they fall.
+    pub fn seasons_ok(&self, min_season: i64) -> bool {
+        let mut prev: Option<i64> = None;
+        for y in 1999..=2401 {
+            let s = self.start_instant(y);
+            let e = self.end_instant(y);
+            let (a, b) = if s < e { (s, e) } else { (e, s) };
+            if b - a < min_season {
+                return false;
+            }
+            if let Some(p) = prev {
+                if a - p < min_season {
+                    return false;
+                }
+            }
+            prev = Some(b);
+        }
+        true
+    }
+
     pub fn in_class(&self, min_season: i64) -> bool {
         let lo_margin = 86_400 + 1;
         let mut prev: Option<i64> = None;
